@@ -1,5 +1,5 @@
 (* C08 — Close is idempotent, final and releases every background goroutine. Theorems over QueueLts (Close / worker / blocked producers), CacheProofs (closed cache behaviour), CallbackLts (timers vs Close). Only `exact` + Print Assumptions. *)
-Require Import KV.Base KV.QueueLts KV.QueueLtsProofs KV.CacheModel KV.CacheProofs KV.CallbackLts KV.CallbackProofs KV.RegistryLts KV.RegistryProofs KV.NotifierLts KV.NotifierProofs.
+Require Import KV.Base KV.QueueLts KV.QueueLtsProofs KV.CacheModel KV.CacheProofs KV.CallbackLts KV.CallbackProofs KV.RegistryLts KV.RegistryProofs KV.NotifierLts KV.NotifierProofs KV.ShutdownApply.
 Open Scope Z_scope.
 
 (* at most one thread is ever inside Close (closeOnce) *)
@@ -143,7 +143,7 @@ Proof. exact RegistryProofs.A6_remove_returns_closed. Qed.
 Theorem c08_notifier_final_drain :
   forall (re : Z -> option (nat * Z)) (n : nat) (scripts : list (list (nat * Z))) 
            (s : state) (sh : nat) (x : Z),
-         reachable re n scripts s ->
+         NotifierLts.reachable re n scripts s ->
          npos s = NExited ->
          quiescent s ->
          NoDup (map snd (staged s)) ->
@@ -153,8 +153,9 @@ Proof. exact NotifierProofs.close_final_drain_exactly_once. Qed.
 
 (* after the notifier exited no listener is ever called again *)
 Theorem c08_notifier_exited_frozen :
-  forall (re : Z -> option (nat * Z)) (s : state) (l : label) (s' : state),
-         npos s = NExited -> step re s l = Some s' -> npos s' = NExited /\ delivered s' = delivered s.
+  forall (re : Z -> option (nat * Z)) (s : state) (l : NotifierLts.label) (s' : state),
+         npos s = NExited ->
+         NotifierLts.step re s l = Some s' -> npos s' = NExited /\ delivered s' = delivered s.
 Proof. exact NotifierProofs.exited_frozen. Qed.
 
 (* literal nuance: on a closed cache a Set with an invalid cost reports the validation error, not ErrCacheClosed (validation precedes the closed check) *)
@@ -163,6 +164,18 @@ Theorem c08_code_3_literal_refuted :
          CacheModel.closed c = true /\
          snd (op_set c 1 10 0 (-1) 0) = 1 /\ snd (op_set c 1 10 0 1 0) = 3.
 Proof. exact CacheProofs.closed_set_code_3_refuted. Qed.
+
+(* F15 repaired: whatever calls that began before Close do afterwards (any number of late drainers, every interleaving), once Close has returned the shard is empty and stays empty *)
+Theorem c08_closed_cache_stays_empty :
+  forall (n0 k : nat) (s : st), reachable true n0 k s -> pcc s = CDone -> size s = 0%nat.
+Proof. exact closed_cache_stays_empty. Qed.
+
+(* F15 before the repair: Close runs to completion, a late drainer then applies a command published during shutdown: the closed cache holds an entry *)
+Theorem c08_closed_cache_refuted_before_fix :
+  exists s : st,
+           exec false (init 1 1) [LC; LC; LC; LC; LD 0; LD 0; LD 0] = Some s /\
+           pcc s = CDone /\ pcd s = [DDone] /\ size s = 1%nat.
+Proof. exact closed_cache_refuted_before_fix. Qed.
 
 Print Assumptions c08_close_exclusive.
 Print Assumptions c08_close_blocks_then_returns.
@@ -180,3 +193,5 @@ Print Assumptions c08_registry_closes.
 Print Assumptions c08_notifier_final_drain.
 Print Assumptions c08_notifier_exited_frozen.
 Print Assumptions c08_code_3_literal_refuted.
+Print Assumptions c08_closed_cache_stays_empty.
+Print Assumptions c08_closed_cache_refuted_before_fix.
